@@ -64,6 +64,10 @@ def analyse_component(e, T, bd, full):
 def run(tier):
     ck = Check('C01', tier, 'proof', 'abstract interpretation of MIR (finite-configuration constant propagation + affine forms with a-priori rounding bounds)')
     builds = ('K1',) if tier == 'quick' else ('K1', 'K2')
+    analyse(ck, tier, builds)
+    return ck.finish()
+
+def analyse(ck, tier, builds, prefix=''):
     ctxs = {b: Ctx(b) for b in builds}
     worst = Fr(0)
     for b, m, full, bd, T in configs(tier, builds):
@@ -114,4 +118,4 @@ def run(tier):
     ck.floor('kernels_interpreted', 7 * 2 * 4 * len(builds) if tier == 'quick' else 7 * 2 * 10 * len(builds))
     ck.assumptions += ['visible u16 samples of an accepted Yuv are <= 2^n-1 (constructor check, C12)',
                        'A-geom: dimensions, strides and buffer lengths below 2^28']
-    return ck.finish()
+    return None
